@@ -235,10 +235,12 @@ let handle_chain (toks : string list) : (string * string * string) option =
        Some (r, spec, "xlate:" ^ path ^ ":" ^ dir ^ (if v = Z0 then ":null" else ""))
      | "rawptr", [kind; a] ->
        let a = zs a in
+       (* a refusal leaves the target as it was: a tainted holds null (its initial value), a cell is unchanged *)
+       let refused = (match kind with "tvol" -> "ABORT held=unchanged" | "tainted" -> "ABORT held=0" | _ -> "ABORT") in
        let m = (match kind with
-           | "tvol" -> string_of_res string_of_z (assign_raw_pointer_vol sa a)
-           | _ -> string_of_res string_of_z (assign_raw_pointer sa a)) in
+           | "tvol" -> (match assign_raw_pointer_vol sa a with Ok r -> "OK " ^ string_of_z r | _ -> refused)
+           | _ -> (match assign_raw_pointer sa a with Ok r -> "OK " ^ string_of_z r | _ -> refused)) in
        let inside = inv_ok sa a && a <> Z0 in
-       let s = if inside then m else "ABORT" in
+       let s = if inside then m else refused in
        Some (m, s, "rawptr:" ^ kind ^ (if inside then ":inside" else ":outside"))
      | _ -> None)
